@@ -21,7 +21,7 @@ CHECKS = {
         "technique": "online trace monitor (model-free) over recorded call histories + drain probe",
     },
     "C02": {
-        "text": "Exploration: a complete small-scope sweep plus generated legal histories of primitive calls (add, bind, put, data, kid, kids, next_id) "
+        "text": "Exploration: a complete small-scope sweep plus generated legal histories of primitive calls (add, bind, put, data, kid, kids, next_id; one history in three goes on with a clone / a reloaded image of the graph) "
                 "compared call by call with an executable reference model of the group semantics (alive set equality), panics caught; every history "
                 "ends with a drain probe (and slot-fill probe) so counter drift becomes observable; a second, independent Python oracle re-judges "
                 "dumped event logs (stage offline).",
@@ -37,7 +37,7 @@ CHECKS = {
         "technique": "read-your-writes monitor against the reference model after every call",
     },
     "C04": {
-        "text": "Exploration: every add() judged by before/after digests of the whole graph (present id) or blankness + a real read (absent id); "
+        "text": "Exploration: every add() judged by before/after digests of the whole graph (present id) or blankness + a real read (absent id), also on clones and reloaded images the history is handed over to; "
                 "twin execution of the same history without its redundant adds, compared after every call and through a drain.",
         "design_ref": "§4 C04",
         "note": TRUST + " Model-free: the oracle is the graph itself before the call / its twin.",
@@ -51,7 +51,7 @@ CHECKS = {
         "technique": "online trace monitor (freshness / no-repeat set per lineage)",
     },
     "C06": {
-        "text": "Exploration: long churn histories (up to thousands of create-put-read cycles, 0..13 long-lived groups, non-FIFO deaths) "
+        "text": "Exploration: long churn histories (up to thousands of create-put-read cycles, 0..13 long-lived groups, non-FIFO deaths, one history in three with checkpoints: it goes on with the reloaded image or a clone) "
                 "against the reference model after every call, ending with drain and slot-fill probes that make leaked group slots observable.",
         "design_ref": "§4 C06, §3.7",
         "note": TRUST,
@@ -133,7 +133,7 @@ CHECKS = {
         "technique": "twin-execution differential monitor (merge vs. the same additions made by public calls) + facts about the call",
     },
     "C12": {
-        "text": "Exploration: right graphs that fall apart in every generated way; Ok must imply that every present vertex is reachable, "
+        "text": "Exploration: right graphs that fall apart in every generated way (extra vertices, detached sub-trees, re-pointed edges, graphs that went through slice()/clone()); Ok must imply that every present vertex is reachable, "
                 "Err must name the missed vertices.",
         "design_ref": "§4 C12",
         "note": TRUST,
